@@ -15,11 +15,11 @@ def register(claim):
     claim("C03",
           "Lean 4 theorems over a model of hash_string / clean_identifier / hash_function_signature: every hash is four characters of [A-Za-z0-9_], "
           "cleaned identifiers contain only alphanumerics and '_', and for EVERY sequence of signatures (including ones whose 24-bit hashes all collide "
-          "under both shift offsets) the hashes handed out are fresh and pairwise distinct and never recycled (c03_assign_fresh, c03_assign_distinct). "
+          "under both shift offsets) the hashes handed out are fresh and pairwise distinct and never recycled (c03_assign_fresh, c03_assign_distinct), and a name is always found (c03_assign_total, pigeonhole over the suffix candidates). "
           "The model is tied to the real binary by library-hash correspondence, by crafted collision families (2..40 colliding signatures; the real "
           "symbols must equal the model's), and the generated code of generated headers + a corpus of escaping/qualification-sensitive headers is "
           "compiled with g++ over a 26-entry option lattice, with symbol uniqueness read from the compiled text.",
-          "Partial: 'is a well-formed translation unit' is decided per run by g++ (no formal C++); linking is checked only for the C back-end; the fuel bound of the free-name search is not a theorem.",
+          "Partial: 'is a well-formed translation unit' is decided per run by g++ (no formal C++); linking is checked only for the C back-end.",
           "Lean 4 proof (freshness invariant over signature sequences) + differential correspondence + g++ oracle", "DESIGN.md §5 C03")
     claim("C06",
           "Lean 4 theorems: for EVERY type built from named types, const, pointers, references, arrays and functions (any nesting, any parameter "
